@@ -13,6 +13,7 @@ import (
 	"strings"
 	"unicode/utf8"
 
+	"github.com/go-spring/stdlib/flatten"
 	"golang.org/x/tools/go/ssa"
 )
 
@@ -79,6 +80,9 @@ func atomKey(p *Ptr) string {
 }
 
 func (ip *Interp) model2(fn *ssa.Function, name string, args []AV) (AV, bool) {
+	if r, ok := ip.modelStorage(fn, name, args); ok {
+		return r, true
+	}
 	s := func(i int) string { return avStr(args[i]) }
 	n := func(i int) int { return int(avInt(args[i])) }
 	switch name {
@@ -333,4 +337,56 @@ func (ip *Interp) timeOf(v AV) *TimeV {
 // errVal makes a non-nil error whose Error() is msg (resolved by the interpreter itself).
 func (ip *Interp) errVal(msg string) AV {
 	return &IfaceV{T: types.Universe.Lookup("error").Type(), V: &Sym{Name: "error:" + msg}}
+}
+
+// StorageV wraps the real flatten.Storage of go-spring/stdlib (a dependency of the analysed module; trusted library).
+type StorageV struct{ S *flatten.Storage }
+
+// ReflectV models a reflect.Value holding an abstract value (plugin instances created by a stubbed factory).
+type ReflectV struct{ V AV }
+
+func (ip *Interp) modelStorage(fn *ssa.Function, name string, args []AV) (AV, bool) {
+	switch name {
+	case "github.com/go-spring/stdlib/flatten.NewStorage":
+		return &StorageV{S: flatten.NewStorage()}, true
+	case "(reflect.Value).Interface":
+		if rv, ok := args[0].(*ReflectV); ok {
+			return rv.V, true
+		}
+		ood("reflect.Value.Interface on %s", avString(args[0]))
+	case "(reflect.Value).IsValid":
+		_, ok := args[0].(*ReflectV)
+		return kBool(ok), true
+	}
+	if !strings.HasPrefix(name, "(*github.com/go-spring/stdlib/flatten.Storage).") {
+		return nil, false
+	}
+	st, ok := args[0].(*StorageV)
+	if !ok {
+		rtPanic("nil *flatten.Storage")
+	}
+	switch fn.Name() {
+	case "Set":
+		if err := st.S.Set(avStr(args[1]), avStr(args[2]), int8(avInt(args[3]))); err != nil {
+			return ip.errVal(err.Error()), true
+		}
+		return NilV{}, true
+	case "Has":
+		return kBool(st.S.Has(avStr(args[1]))), true
+	case "Get":
+		return kStr(st.S.Get(avStr(args[1]), avStrings(args[2])...)), true
+	case "SubKeys":
+		ks, err := st.S.SubKeys(avStr(args[1]))
+		if err != nil {
+			return TupleV{NilV{}, ip.errVal(err.Error())}, true
+		}
+		if len(ks) == 0 {
+			return TupleV{NilV{}, NilV{}}, true
+		}
+		return TupleV{strSlice(ip, ks), NilV{}}, true
+	case "Keys":
+		return strSlice(ip, st.S.Keys()), true
+	}
+	ood("flatten.Storage.%s", fn.Name())
+	return nil, false
 }
